@@ -127,6 +127,34 @@ def check_serial(chk, c, want_models=False):
     return (c, a), (ce, b)
 
 
+def serial_theorem_objects(chk, pairs):
+    """the networks NWloc / NWech of C04_serial_echelon_eq_local (Sim/Serial.v), built from (index, local level, lead time) rows, are run in
+    Coq and compared with the implementation on every state variable: the objects the theorem speaks about are the systems the code builds"""
+    ok, log = coq_make(['Sim/Serial.vo'])
+    if not ok:
+        chk.broken.append(('Sim/Serial.vo', log[-600:])); return
+    exprs = []; meta = []
+    for c, a in pairs:
+        ids = c['ids']; nd = c['nodes']; ech = nd[ids[0]]['pol'][0] == 'EBS'
+        if ech:      # recover the local levels from the echelon levels of the converted case
+            lv = {}
+            for j, i in enumerate(ids): lv[i] = nd[i]['pol'][1] - (nd[ids[j + 1]]['pol'][1] if j + 1 < len(ids) else 0)
+        else: lv = {i: nd[i]['pol'][1] for i in ids}
+        stages = clist(['(%s, %s, %s)' % (simlib.cN(i), cq(lv[i]), cnat(nd[i]['slt'])) for i in ids])
+        hs = clist(['(%s, %s)' % (simlib.cN(i), cq(nd[i]['h'])) for i in ids]); ps = clist(['(%s, %s)' % (simlib.cN(i), cq(nd[i]['p'])) for i in ids])
+        order = clist([simlib.cN(i) for i in a['struct']['order']])
+        inputs = clist(['((fun _ : N => false), tbl 0 [(%s, %s)])' % (simlib.cN(ids[-1]), cq(nd[ids[-1]]['demand'][t])) for t in range(c['T'])])
+        exprs.append('obs_run (%s (tbl 0 %s) (tbl 0 %s) %s %s) %s' % ('NWech' if ech else 'NWloc', hs, ps, order, stages, inputs)); meta.append((c, a, ech))
+    try:
+        vals = coq_eval_sharded('c04nw', 'Sim.Model Sim.Obs Sim.Serial', '', exprs, shard=10, timeout=900)
+    except Exception as e:
+        chk.broken.append(('model-evaluation-serial-theorem-objects', str(e)[-500:])); return
+    for v, (c, a, ech) in zip(vals, meta):
+        m = simlib.parse_model(v, c, a['struct']); chk.traces += 1; chk.count('serial-ebs:theorem-object=%s' % ('NWech' if ech else 'NWloc'))
+        d = simlib.compare(a, m)
+        if d: chk.mismatch('%s of Sim/Serial.v vs the implementation: %d field(s) differ, first %s' % ('NWech' if ech else 'NWloc', len(d), jsonable(d[:3])), c)
+
+
 def serial_stream(chk, n, do_model=True):
     pairs = []
     for _ in range(n):
@@ -137,6 +165,7 @@ def serial_stream(chk, n, do_model=True):
         chk.case(c, short and len(c['ids']) > 1, simlib.case_key(c))
         if r: pairs += list(r)
     if do_model and pairs and simmon.ensure_model(chk):
+        serial_theorem_objects(chk, pairs[:2 * max(10, n // 4)])
         sub = pairs[:2 * max(10, n // 4)]
         try:
             ms = simlib.run_model([(c, a['struct']) for c, a in sub], name='c04ser', shard=20)
